@@ -16,7 +16,7 @@ class Prop:
             "configurations (tun,bind,receive functions) in {(1,1,2),(4,2,1),(2,8,2),(3,3,1)}: 14 directed plans per configuration "
             "(outbound branches, inbound transport branches, handshake branches, key rotation, staged overflow > 128 containers, "
             "overflow then down/up, counter limit with out-of-order re-staging, down/up cycles, persistent keepalive, removal, "
-            "identity change, close with packets staged, close while down, rate-limited handshakes under load with a consumed cookie, handshake-queue overflow with all handshake workers parked in Bind.Send, TUN reads that return packets together with ErrTooManySegments followed by close / by a fatal read) + random plans from one PRNG; counts read after every "
+            "identity change, close with packets staged, close while down, rate-limited handshakes under load with a consumed cookie, handshake-queue overflow with all handshake workers parked in Bind.Send, TUN reads that return packets together with ErrTooManySegments followed by close / by a fatal read, containers left in stopped peers' autodraining queues flushed by Start / collected after removal, removeall, close, fatal read, removal while the sequential receiver is held in tun.Write and a datagram arrives, peers configured while the interface is down) + random plans from one PRNG; counts read after every "
             "step, Close followed by two runtime.GC(); 29 stall scenarios with very small pools + 4 rounds of two goroutines waiting on an exhausted message-buffer pool while a two-element batch is released; non-trivial = the plan reaches "
             "at least 6 different branch kinds and at least one step with packets staged; distinct by content hash")
     assumptions = ["pools are bounded through the package variable device.VerifPoolMax (build tag verif) so that WaitPool.count is maintained",
@@ -68,6 +68,8 @@ class Prop:
         n = (60 if quick else 1200) * mult
         args = ["-seed", str(seed), "-n", str(n), "-shards", "16" if quick else "48", "-out", self.dir,
                 "-corpus", os.path.join(vlib.ROOT, "corpus", "C20"), "-stall", "300" if quick else "3000"]
+        if not quick:
+            args.append("-cycle")
         return self._run_go(args)
 
     def _fails(self, outputs, shards, files):
@@ -87,7 +89,7 @@ class Prop:
                  ["handshake_" + x for x in ("bad_mac1", "initiation_accepted", "initiation_refused", "response_accepted", "response_refused", "cookie_reply", "under_load_cookie_sent")] +
                  ["peer_removals", "down", "up", "close", "steps_with_full_staged_queue", "steps_with_staged_packets", "identity_changes", "steps_with_counter_limit_restaging",
                   "handshake_under_load_valid_cookie_rate_limiter", "handshake_queue_overflow_labelled",
-                  "tun_injections_with_ErrTooManySegments", "fatal_tun_reads"])
+                  "tun_injections_with_ErrTooManySegments", "fatal_tun_reads", "straggler_injections"])
         tot = [0] * len(names)
         for o in outputs.values():
             v = vlib.parse_n_list(vlib.coq_value(o, "st"))
@@ -115,6 +117,23 @@ class Prop:
                 c["_fail"] = mine[0] if mine else None
         return fs
 
+    @staticmethod
+    def _f10_plan(plan):
+        # an outbound straggler that is not flushed by Peer.Start (up) before its peer is removed / the device closed
+        # is never given back on the unchanged tree (finding F10): such plans are not valid shrink results
+        pending = set()
+        for a in plan:
+            f = a.split()
+            if f[0] == "straggle" and len(f) > 3 and f[3] != "0":
+                pending.add(f[1])
+            elif f[0] == "up":
+                pending.clear()
+            elif f[0] == "remove" and len(f) > 1 and f[1] in pending:
+                return True
+            elif f[0] in ("removeall", "close", "fatalread") and pending:
+                return True
+        return bool(pending)      # every plan ends with close + gc
+
     def shrink_candidates(self, case):
         plan = case["plan"]
         if len(plan) == 1 and (plan[0].startswith("stall ") or plan[0].startswith("twowaiters")):
@@ -124,18 +143,20 @@ class Prop:
         while chunk >= 1:
             for i in range(0, n, chunk):
                 cand = plan[:i] + plan[i + chunk:]
-                if cand and len(cand) < n:
+                if cand and len(cand) < n and not self._f10_plan(cand):
                     yield {"plan": cand, "cfg": case.get("cfg", [1, 1, 2]), "gen": "shrunk"}
             chunk //= 2
 
     POOLS = {1: "inbound-containers", 2: "outbound-containers", 3: "message-buffers", 4: "inbound-elements", 5: "outbound-elements",
-             6: "staged-element-ownership"}
+             6: "staged-element-ownership", 7: "staged-while-interface-down"}
 
     def signature(self, case, f):
         if case.get("_fail"):
             f = case["_fail"]
         if f.get("stall"):
             return "pool-exhaustion-stall-" + f["stall"]
+        if str(case.get("gen", "")) == "directed:outbound-straggler-cycle" or self._f10_plan(case.get("plan", [])):
+            return "outbound-straggler-never-collected"
         if f.get("stuck"):
             return "device-stuck"
         steps = case.get("steps") or []
@@ -144,6 +165,8 @@ class Prop:
         pool = self.POOLS.get(f["pos"] % 10, "p%d" % (f["pos"] % 10))
         if f.get("kind") == 2 and f["pos"] % 10 == 6:
             return "staged-element-owned-twice-on-%s" % ev
+        if f.get("kind") == 2 and f["pos"] % 10 == 7:
+            return "packets-staged-while-interface-down-on-%s" % ev
         exp = None
         kind = "mismatch"
         if i >= 0:
@@ -189,7 +212,7 @@ def replay(path):
     fs = p.run_cases([case])
     c = p.last_rerun[0]
     print(json.dumps({"failures": fs, "gen": c.get("gen"), "stall": c.get("stall"), "stuck": c.get("stuck"),
-                      "steps": [{"ev": s["ev"], "counts": s["counts"], "staged": [s["staged_elems"], s["staged_conts"]], "ownership_defects": s.get("ownership_defects", 0)}
+                      "steps": [{"ev": s["ev"], "counts": s["counts"], "staged": [s["staged_elems"], s["staged_conts"]], "ownership_defects": s.get("ownership_defects", 0), "autodraining": s.get("autodraining")}
                                 for s in (c.get("steps") or [])][-12:]}))
     if any(f["kind"] == 2 for f in fs):
         print("VIOLATION property=C20 replay=%s" % path)
